@@ -239,4 +239,35 @@ def dgetInts (d : PyDict) (k : String) : Except Err (List Int) :=
   | some _ => .error .TypeError
   | none => .error .KeyError
 
+/-! ### methods of objects whose state must survive an exception (ports) -/
+
+/-- a computation on an object (`self`): it returns a value or raises, and in both cases leaves a state behind — what a
+    Python method does to its object before it raises stays done -/
+def PM (σ α : Type) : Type := σ → Except Err α × σ
+
+namespace PM
+variable {σ α β : Type}
+def pure' (a : α) : PM σ α := fun s => (.ok a, s)
+def bind' (x : PM σ α) (f : α → PM σ β) : PM σ β := fun s =>
+  match x s with
+  | (.ok a, s') => f a s'
+  | (.error e, s') => (.error e, s')
+def throw' (e : Err) : PM σ α := fun s => (.error e, s)
+/-- `try: x  except: h`: the handler runs in the state the failed computation left -/
+def tryCatch' (x : PM σ α) (h : Err → PM σ α) : PM σ α := fun s =>
+  match x s with
+  | (.ok a, s') => (.ok a, s')
+  | (.error e, s') => h e s'
+instance : Monad (PM σ) where
+  pure := pure'
+  bind := bind'
+instance : MonadExceptOf Err (PM σ) where
+  throw := throw'
+  tryCatch := tryCatch'
+instance : MonadStateOf σ (PM σ) where
+  get := fun s => (.ok s, s)
+  set := fun s' _ => (.ok (), s')
+  modifyGet := fun f s => let (a, s') := f s; (.ok a, s')
+end PM
+
 end Mido.Py
